@@ -25,7 +25,7 @@ fn main() {
                 h = o;
             }
             let mut rng = n.cx.hist_rng(h);
-            match rng.below(17) {
+            match rng.below(19) {
                 0 => n.map_history::<u32, u32, 0>(h, rng, steps),
                 1 => n.map_history::<u32, u32, 1>(h, rng, steps),
                 2 => n.map_history::<u32, u32, 2>(h, rng, steps),
@@ -44,6 +44,8 @@ fn main() {
                 // operands with more than 64 elements (slot numbers beyond one machine word of mask bits)
                 14 => n.set_history::<u32, 80, 72>(h, rng, steps),
                 15 => n.set_history::<u32, 3, 130>(h, rng, steps),
+                16 => n.dropglue::<4, 3>(h, rng),
+                17 => n.dropglue::<8, 16>(h, rng),
                 _ => n.set_history::<u32, 0, 2>(h, rng, steps),
             }
             n.cx.rep.histories += 1;
